@@ -22,6 +22,12 @@ class PyExc(Exception):
 MISSING = object()
 
 
+def unmodelled(model, name):
+    """An attribute a *model* object (asyncio stream, loop, stub, abstract container ...) does not provide: the real object
+    most likely has it, so this is outside the modelled subset (undecided) - never an AttributeError of the code under test."""
+    return Unsupported(f"{type(model).__name__}.{name} is not modelled")
+
+
 class Class:
     def __init__(self, name, bases, ns, module="builtins", qualname=None):
         self.name = name
